@@ -92,6 +92,7 @@ class TaskManager:
         Create a new TaskManager and start the introspection loop.
         """
         self._pending_tasks: WeakValueDictionary[Hashable, Future] = WeakValueDictionary()
+        self._cancelled_tasks: dict[Hashable, list[Future]] = {}  # Cancelled by name, but not finished yet
         self._shutdown_tasks: list[tuple[Callable | Coroutine, tuple[Any, ...], dict[str, Any]]] = []
         self._task_lock = RLock()
         self._shutdown = False
@@ -114,13 +115,29 @@ class TaskManager:
         """
         new_task: Future = Future()
 
+        def chain_cb(chained: Future) -> None:
+            if chained.cancelled():
+                new_task.cancel()
+            elif (exception := chained.exception()) is not None:
+                new_task.set_exception(exception)
+            else:
+                new_task.set_result(chained.result())
+
         def cancel_cb(_: Any) -> None:  # noqa: ANN401
             try:
-                new_task.set_result(self.register_task(name, *args, **kwargs))
+                if self.is_pending_task_active(name) or self._cancelled_tasks.get(name):
+                    # Other calls for this name got in first: their tasks have to be replaced (and be done) in turn.
+                    self.replace_task(name, *args, **kwargs).add_done_callback(chain_cb)
+                else:
+                    new_task.set_result(self.register_task(name, *args, **kwargs))
             except Exception as e:
                 new_task.set_exception(e)
 
         old_task = self.cancel_pending_task(name)
+        # Tasks of this name that were cancelled before, but are still finishing, also have to be done first.
+        unfinished = [t for t in self._cancelled_tasks.get(name, []) if t is not old_task and not t.done()]
+        if unfinished:
+            old_task = gather(old_task, *unfinished, return_exceptions=True)
         old_task.add_done_callback(cancel_cb)
         return new_task
 
@@ -227,7 +244,17 @@ class TaskManager:
             if not pending_task.done():
                 pending_task.cancel()
                 self._pending_tasks.pop(name, None)
+                # The task may need time to clean up after its cancellation: remember it until it is really done.
+                self._cancelled_tasks.setdefault(name, []).append(pending_task)
+                pending_task.add_done_callback(lambda f: self._forget_cancelled_task(name, f))
             return pending_task
+
+    def _forget_cancelled_task(self, name: Hashable, task: Future) -> None:
+        remaining = [t for t in self._cancelled_tasks.get(name, []) if t is not task]
+        if remaining:
+            self._cancelled_tasks[name] = remaining
+        else:
+            self._cancelled_tasks.pop(name, None)
 
     def cancel_all_pending_tasks(self) -> list[Future]:
         """
@@ -287,6 +314,7 @@ class TaskManager:
         with self._task_lock:
             self._shutdown = True
             tasks = self.cancel_all_pending_tasks()
+            tasks += [t for ts in self._cancelled_tasks.values() for t in ts if t not in tasks]
 
         if tasks:
             # Wait for every cancelled task to really finish (a task may need time to clean up after its cancellation).
